@@ -998,6 +998,90 @@ theorem restart_counterexample :
     (lRun false false lInit [.start, .arrive, .shutdown, .start, .arrive, .arrive, .shutdown]).2 =
       [.ok, .served, .ok, .ok, .served, .served, .ok] := by decide
 
+/-- **conn_answered_before_close.** (The life cycle of a TCP/DoT connection with real pipelining.)  Whatever
+the scheduler does — frames read in any number, their workers finishing in any order, the read loop ending
+(client half-close, read error, idle time-out, `Shutdown`) at any moment, also while workers are still inside
+the handler — as long as no frame is one the server drops: no response is ever written to a connection the
+server has closed; the server closes the connection at most once, and when it does, no frame is in flight
+and every frame it read has been answered exactly as often as it was read; what the client sees is the
+answers followed by the close; and the close does come as soon as the loop has ended and the last worker is
+done. -/
+theorem conn_answered_before_close (evs : List CEv) (hn : NoDrop evs) :
+    (cRun true cInit evs).lost = [] ∧
+    (∀ id, CObs.lost id ∉ (cRun true cInit evs).log) ∧
+    (cRun true cInit evs).log =
+      (cRun true cInit evs).answered.map CObs.wrote ++ List.replicate (cRun true cInit evs).closes CObs.closed ∧
+    (cRun true cInit evs).closes ≤ 1 ∧
+    (∀ id, (cRun true cInit evs).answered.count id ≤ (cRun true cInit evs).received.count id) ∧
+    ((cRun true cInit evs).closes > 0 → (cRun true cInit evs).inflight = [] ∧
+      ∀ id, (cRun true cInit evs).answered.count id = (cRun true cInit evs).received.count id) ∧
+    ((cRun true cInit evs).reading = false → (cRun true cInit evs).inflight = [] →
+      (cRun true cInit evs).closes = 1) := by
+  obtain ⟨⟨h1, h2, h3, h4, h5, h6⟩, h7⟩ := cRun_inv evs hn cInit cInit_inv
+  generalize cRun true cInit evs = s at *
+  have hfin : s.closes > 0 → s.finalDone = true := by
+    intro hc
+    cases hx : s.finalDone with
+    | true => rfl
+    | false => rw [h4, hx] at hc; simp at hc
+  refine ⟨h2, ?_, h6, ?_, ?_, ?_, ?_⟩
+  · intro id hm
+    rw [h6] at hm
+    simp only [List.mem_append, List.mem_map, List.mem_replicate] at hm
+    rcases hm with ⟨a, _, ha⟩ | ⟨_, ha⟩ <;> cases ha
+  · rw [h4]; split <;> omega
+  · intro id; have := h5 id; omega
+  · intro hc
+    have hi := (h3 (hfin hc)).2
+    refine ⟨hi, fun id => ?_⟩
+    have := h5 id
+    rw [hi] at this
+    simpa using this
+  · intro hr hi
+    rw [h4, h7 hr hi]
+    rfl
+
+/-- **conn_complete_schedule.** If in addition the schedule is complete — the read loop has ended and every
+worker is done — the connection has been closed exactly once, after the last answer, and every frame the
+loop read before it ended (`recvIds`) was answered exactly as often as it was sent. -/
+theorem conn_complete_schedule (evs : List CEv) (hn : NoDrop evs)
+    (hr : (cRun true cInit evs).reading = false) (hi : (cRun true cInit evs).inflight = []) :
+    (cRun true cInit evs).closes = 1 ∧
+    (∀ id, (cRun true cInit evs).answered.count id = (recvIds evs).count id) ∧
+    (cRun true cInit evs).log = (cRun true cInit evs).answered.map CObs.wrote ++ [CObs.closed] := by
+  obtain ⟨_, _, h3, _, _, h6, h7⟩ := conn_answered_before_close evs hn
+  have hc := h7 hr hi
+  have hrec := cRun_received evs hn cInit rfl rfl
+  refine ⟨hc, ?_, ?_⟩
+  · intro id
+    rw [(h6 (by omega)).2 id, hrec]
+    simp [cInit]
+  · rw [h3, hc]; rfl
+
+-- Non-vacuity: three frames, answered out of order, the client half-closes while frame 1 is still inside
+-- the handler; a frame sent after the end of the loop is never read.
+example : NoDrop [.recv 1 false, .recv 2 false, .finish 2, .endRead, .recv 3 false, .finish 1] := by
+  intro id; simp
+example : (cRun true cInit [.recv 1 false, .recv 2 false, .finish 2, .endRead, .recv 3 false, .finish 1]).log =
+    [.wrote 2, .wrote 1, .closed] ∧
+    (cRun true cInit [.recv 1 false, .recv 2 false, .finish 2, .endRead, .recv 3 false, .finish 1]).reading = false ∧
+    (cRun true cInit [.recv 1 false, .recv 2 false, .finish 2, .endRead, .recv 3 false, .finish 1]).inflight = [] := by
+  decide
+
+/-- **early_close_counterexample.** With the two statements of the clean-up in the other order (`Close`
+before `wg.Wait()`) a query that is still inside the handler when the client half-closes the stream loses
+its answer: it is written to a closed connection. -/
+theorem early_close_counterexample :
+    (cRun false cInit [.recv 7 false, .endRead, .finish 7]).log = [.closed, .lost 7] ∧
+    (cRun true cInit [.recv 7 false, .endRead, .finish 7]).log = [.wrote 7, .closed] := by decide
+
+/-- **drop_cuts_inflight.** (The code as it is; why `NoDrop` is a hypothesis.)  A frame for which nothing is
+written makes its worker close the connection at once; an accepted query of the same connection that is still
+inside the handler then loses its answer. -/
+theorem drop_cuts_inflight :
+    (cRun true cInit [.recv 1 false, .recv 2 true, .finish 2, .finish 1]).log = [.closed, .lost 1, .closed] := by
+  decide
+
 #print axioms accept_table
 #print axioms one_response
 #print axioms exactly_one
@@ -1046,6 +1130,10 @@ theorem restart_counterexample :
 #print axioms lStep_good
 #print axioms restart_serves
 #print axioms restart_counterexample
+#print axioms conn_answered_before_close
+#print axioms conn_complete_schedule
+#print axioms early_close_counterexample
+#print axioms drop_cuts_inflight
 
 end Agd.Serve
 #print axioms Agd.Tie.TrC01.translation_complete
@@ -1067,3 +1155,9 @@ end Agd.Serve
 #print axioms Agd.Tie.TrC01.cutList_none
 #print axioms Agd.Tie.TrC01.remoteAddr_zone
 #print axioms Agd.Tie.TrC01.remoteAddr_nozone
+#print axioms Agd.Tie.TrC01.serveTCPConn_exit
+#print axioms Agd.Tie.TrC01.serveTCPConn_closes_once
+#print axioms Agd.Tie.TrC01.serveTCPConn_waits_before_close
+#print axioms Agd.Tie.TrC01.acceptTCPMsg_counts_before_submit
+#print axioms Agd.Tie.TrC01.serveTCPMessage_done_last
+#print axioms Agd.Tie.TrC01.acceptTCPMsg_task_order
